@@ -28,7 +28,7 @@ def doShape (dims : List Nat) (idx : List Item) : String :=
   | some sh, some e =>
     let zi := List.zip dims e
     let ks := zi.map (·.2.kind)
-    s!"S={showNats sh}|M={showNats (computeGetitemSize zi)}|mv={if movedToStart ks then 1 else 0}|E={showNats (specElems dims zi)}"
+    s!"S={showNats sh}|M={showNats (computeGetitemSize zi)}|mv={if movedToStart ks then 1 else 0}|E={showNats (specElems dims zi)}|C={showNats (convElems dims zi)}"
   | _, _ => "err"
 
 def stepLine (_ : Unit) (line : String) : Unit × String :=
